@@ -166,8 +166,13 @@ struct ApplyMagnitudeImpl<Mag, ApplyAs::INTEGER_DIVIDE, T, is_T_integral> {
 
     static constexpr bool would_truncate(const T &x) {
         constexpr auto mag_value_result = get_value_result<T>(MagInverseT<Mag>{});
-        return TruncationChecker<T, mag_value_result.outcome == MagRepresentationOutcome::OK>::
-            would_truncate(x, mag_value_result.value);
+
+        // Only an integral `T` can truncate.  (A floating point `T` which cannot hold the divisor
+        // still divides just fine: see `DivideByInverseOf`.)
+        constexpr bool CAN_USE_DIVISOR =
+            (mag_value_result.outcome == MagRepresentationOutcome::OK) ||
+            !std::is_integral<T>::value;
+        return TruncationChecker<T, CAN_USE_DIVISOR>::would_truncate(x, mag_value_result.value);
     }
 };
 
